@@ -229,6 +229,10 @@ func vC01GenNet(r *vRand) vC01Net {
 			}
 		}
 		ipstr := net.IP(vC01Bytes(v, 16)).String()
+		if vC01IsMapped(v) { // IP.String prints a.b.c.d: keep the IPv6 syntax
+			b := vC01Bytes(v, 16)
+			ipstr = "::ffff:" + vC01Dotted(uint32(b[12])<<24|uint32(b[13])<<16|uint32(b[14])<<8|uint32(b[15]))
+		}
 		if r.Chance(1, 4) { // uncompressed syntax
 			b := vC01Bytes(v, 16)
 			parts := make([]string, 8)
@@ -473,6 +477,12 @@ func vC01Derive(r *vRand, u vC01User, intent string) *vC01Req {
 	// permission
 	if len(u.perms) > 0 {
 		p := vPick(r, u.perms)
+		for i := 0; i < 3 && strings.HasPrefix(p.Path, "~"); i++ { // prefer an entry that can be hit
+			if _, err := regexp.Compile(p.Path[1:]); err == nil {
+				break
+			}
+			p = vPick(r, u.perms)
+		}
 		q.action = p.Action
 		switch {
 		case p.Path == "":
@@ -536,18 +546,22 @@ func TestVerifC01(t *testing.T) {
 		var q *vC01Req
 		if nu > 0 && r.Chance(4, 5) {
 			intent = vPick(r, vC01Intents)
-			q = vC01Derive(r, vPick(r, users), intent)
+			target := vPick(r, users)
+			for k := 0; k < 3 && (target.user.acc == vAccNone || target.pass.acc == vAccNone || len(target.perms) == 0); k++ {
+				target = vPick(r, users)
+			}
+			q = vC01Derive(r, target, intent)
 		} else {
 			q = vC01RandReq(r)
 		}
 		if r.Chance(1, 6) {
 			q.token = vPick(r, []string{"tok", "eyJhbGciOi", q.pass})
 		}
-		if r.Chance(1, 8) {
+		if (intent == "random" && r.Chance(1, 4)) || r.Chance(1, 20) {
 			q.user, q.pass = "", ""
 		}
 		q.ask = r.Chance(2, 3)
-		if r.Chance(1, 5) {
+		if r.Chance(1, 6) {
 			q.custom = 1 + r.Intn(4)
 			if r.Bool() {
 				q.custom = 1
